@@ -128,9 +128,9 @@ Definition model_at (c : case) (n : nat) : option sres :=
   | None => None
   end.
 
-(* well-formedness of a case: ASCII-only names in the layers directory, unique paths,
-   absolute clean configuration paths *)
-Definition ascii_only (s : bytes) : bool := forallb (fun ch => bn ch <? 128) s.
+(* well-formedness of a case: paths and command arguments within the modelled bytes (ASCII, and
+   the two-byte UTF-8 letters of Model/Layers.v: [name_bytes_ok]), unique paths, absolute clean
+   configuration paths *)
 Fixpoint nodup_paths (l : list bytes) : bool :=
   match l with [] => true | x :: r => negb (memb x r) && nodup_paths r end.
 Definition wf_cfg (c : cfgT) : bool :=
@@ -140,9 +140,9 @@ Definition wf_cfg (c : cfgT) : bool :=
 Definition wf (c : case) : bool :=
   wf_cfg (c_cfg c)
   && nodup_paths (map fst (c_fs0 c))
-  && forallb (fun e => ascii_only (fst e) && fields_exact (match snd e with File x => x | _ => [] end)) (c_fs0 c)
+  && forallb (fun e => name_bytes_ok (fst e) && fields_exact (match snd e with File x => x | _ => [] end)) (c_fs0 c)
   && wf_table (ks_tab (c_ks0 c))
-  && forallb (fun s => forallb ascii_only
+  && forallb (fun s => forallb name_bytes_ok
        (match s_cmd s with
         | CAdd a b0 x => [a; b0; x] | CRemove a _ => [a] | CRename a b0 => [a; b0] | CRebase a b0 => [a; b0]
         | CMkdirs a => [a] | CMount a => [a] | CUmount a _ => [a] | CChroot a => [a] | _ => []
